@@ -69,6 +69,16 @@ Proof.
   rewrite cast_i32_u32_id; [reflexivity|]. unfold psub. cbn [px py]. lia.
 Qed.
 
+(* ---- line/mod.rs, common/mod.rs ---- *)
+Lemma src_side_swap_eq s : src_LineSide_swap s = side_swap s.
+Proof. reflexivity. Qed.
+Lemma src_perpendicular_eq l : src_Line_perpendicular l = Thickline.perpendicular l.
+Proof. reflexivity. Qed.
+Lemma src_line_bounding_box_eq l : src_Line_bounding_box l = with_corners (l_start l) (l_end l).
+Proof. reflexivity. Qed.
+Lemma src_line_translate_eq l d : src_Line_translate l d = translate_line l d.
+Proof. reflexivity. Qed.
+
 (* ---- triangle/mod.rs ---- *)
 Definition tri_of (t : Triangle) : triangle := let '(a, b, c) := Triangle_vertices t in T a b c.
 
